@@ -4,6 +4,7 @@ import (
 	"fmt"
 	"os"
 	"path/filepath"
+	"slices"
 	"strings"
 	"sync"
 	"time"
@@ -220,6 +221,11 @@ func (sm *ShardManager) DeleteCollectionShards(collection models.Collection) ([]
 			continue
 		}
 		shardDir := filepath.Join(collectionDir, shardDirEntry.Name())
+		// A shard directory holds files only. An element of a user id may
+		// read like a shard id, its directory holds collection directories.
+		if entries, err := os.ReadDir(shardDir); err != nil || slices.ContainsFunc(entries, os.DirEntry.IsDir) {
+			continue
+		}
 		// Is the shard already loaded?
 		if ls, ok := sm.shardStore[shardDir]; ok {
 			verifPause("delete:before-shard-lock", shardDir)
